@@ -290,7 +290,7 @@ class Check:
         if pid != self.pid:
             return  # another property's business: its own check reports it
         for k in load_known():
-            if k["property"] == self.pid and k.get("status", "open") == "open" and signature is not None and k["signature"] == signature:
+            if self.pid in k.get("properties", [k.get("property")]) and k.get("status", "open") == "open" and signature is not None and k["signature"] == signature:
                 self.known_hits.append((k, desc))
                 return
         d = os.path.join(REPLAYS, self.pid)
